@@ -47,8 +47,191 @@ func facts(repo string) (string, error) {
 		lname := strings.ToLower(name[:1]) + name[1:]
 		fmt.Fprintf(&b, "/-- shared-memory accesses of `%s` in source order -/\ndef %sOps : List SrcOp :=\n  [%s]\n\n", name, lname, strings.Join(ops, ", "))
 	}
+	// control shape of the waiting forms (WAVE4 class 5) and where Init gets its slot
+	// array from (class 4); compared with the model's shape in Proof/C01Facts.lean
+	shapes := map[string][]string{}
+	var initAssign []string
+	for _, d := range f.Decls {
+		fd, ok := d.(*ast.FuncDecl)
+		if !ok || fd.Recv == nil || fd.Body == nil || !strings.Contains(exprString(fd.Recv.List[0].Type), "SyncRing") {
+			continue
+		}
+		switch fd.Name.Name {
+		case "PushWait", "PopWait":
+			shapes[fd.Name.Name] = shapeBlock(fd.Body)
+		case "Init":
+			initAssign = valuesAssignments(fd.Body, 0)
+		}
+	}
+	for _, name := range []string{"PushWait", "PopWait"} {
+		sh, ok := shapes[name]
+		if !ok {
+			return "", fmt.Errorf("method SyncRing.%s not found", name)
+		}
+		lname := strings.ToLower(name[:1]) + name[1:]
+		fmt.Fprintf(&b, "/-- control shape of `%s`: tests and returns in source order -/\ndef %sShape : List String :=\n  [%s]\n\n", name, lname, quoteAll(sh))
+	}
+	fmt.Fprintf(&b, "/-- every assignment to `r.values` in `Init` (nesting depth:right-hand side) -/\ndef initValues : List String :=\n  [%s]\n\n", quoteAll(initAssign))
 	b.WriteString("end Golib.Gen.C01\n")
 	return b.String(), nil
+}
+
+func quoteAll(l []string) string {
+	q := make([]string, len(l))
+	for i, x := range l {
+		q[i] = fmt.Sprintf("%q", x)
+	}
+	return strings.Join(q, ", ")
+}
+
+func containsAttempt(n ast.Node) bool {
+	found := false
+	if n == nil {
+		return false
+	}
+	ast.Inspect(n, func(x ast.Node) bool {
+		if c, ok := x.(*ast.CallExpr); ok {
+			if s, ok := c.Fun.(*ast.SelectorExpr); ok && (s.Sel.Name == "Push" || s.Sel.Name == "Pop") {
+				found = true
+			}
+		}
+		return true
+	})
+	return found
+}
+
+// shapeBlock linearises a block: `if <kind> [ … ]`, `loop [ … ]`, `tick`, `gosched`,
+// `ret true|false`; statements without control relevance (ticker set-up, ticker.Stop,
+// var zero) are skipped; anything else is reported verbatim-ish as `other:…` so that an
+// unexpected shape can never match the model's.
+func shapeBlock(b *ast.BlockStmt) []string {
+	var out []string
+	for _, st := range b.List {
+		switch x := st.(type) {
+		case *ast.IfStmt:
+			kind := "other:" + exprString(x.Cond)
+			c := strings.ReplaceAll(exprString(x.Cond), " ", "")
+			switch {
+			case x.Else != nil:
+				kind = "other:else"
+			case containsAttempt(x.Init) && c == "ok", x.Init == nil && containsAttempt(x.Cond) && !strings.Contains(c, "!"):
+				kind = "attempt"
+			case x.Init != nil:
+				kind = "other:init"
+			case c == "maxWait<0":
+				kind = "neg"
+			case c == "maxWait==0":
+				kind = "zero"
+			case c == "now.Sub?>=maxWait" || c == "?>=maxWait":
+				kind = "deadline"
+			}
+			if kind == "deadline" {
+				// the deadline test must be `now.Sub(begin) >= maxWait`
+				ok := false
+				if be, isB := x.Cond.(*ast.BinaryExpr); isB && be.Op == token.GEQ {
+					if call, isC := be.X.(*ast.CallExpr); isC && len(call.Args) == 1 && exprString(call.Fun) == "now.Sub" && exprString(call.Args[0]) == "begin" {
+						ok = true
+					}
+				}
+				if !ok {
+					kind = "other:deadline-test"
+				}
+			}
+			out = append(out, "if "+kind+" [")
+			out = append(out, shapeBlock(x.Body)...)
+			out = append(out, "]")
+		case *ast.ForStmt:
+			if x.Init != nil || x.Cond != nil || x.Post != nil {
+				out = append(out, "other:for-with-clauses")
+			}
+			out = append(out, "loop [")
+			out = append(out, shapeBlock(x.Body)...)
+			out = append(out, "]")
+		case *ast.ReturnStmt:
+			if len(x.Results) == 0 {
+				out = append(out, "other:bare-return")
+			} else {
+				out = append(out, "ret "+exprString(x.Results[len(x.Results)-1]))
+			}
+		case *ast.AssignStmt:
+			switch {
+			case containsAttempt(x):
+				out = append(out, "other:attempt-outside-if")
+			case len(x.Rhs) == 1 && isTickRecv(x.Rhs[0]):
+				out = append(out, "tick")
+			}
+		case *ast.ExprStmt:
+			switch {
+			case containsAttempt(x):
+				out = append(out, "other:attempt-result-dropped")
+			case exprStringCall(x.X) == "runtime.Gosched":
+				out = append(out, "gosched")
+			case exprStringCall(x.X) == "ticker.Stop":
+			default:
+				out = append(out, "other:expr")
+			}
+		case *ast.DeclStmt:
+		default:
+			out = append(out, fmt.Sprintf("other:%T", st))
+		}
+	}
+	return out
+}
+
+func isTickRecv(e ast.Expr) bool {
+	u, ok := e.(*ast.UnaryExpr)
+	return ok && u.Op == token.ARROW && exprString(u.X) == "ticker.C"
+}
+
+func exprStringCall(e ast.Expr) string {
+	if c, ok := e.(*ast.CallExpr); ok {
+		return exprString(c.Fun)
+	}
+	return ""
+}
+
+// valuesAssignments lists the assignments to r.values: "<depth>:make" when the right-hand
+// side is a `make(...)`, "<depth>:other" otherwise (depth 0 = unconditional).
+func valuesAssignments(b *ast.BlockStmt, depth int) []string {
+	var out []string
+	var walk func(n ast.Node, d int)
+	walk = func(n ast.Node, d int) {
+		switch x := n.(type) {
+		case *ast.BlockStmt:
+			for _, s := range x.List {
+				walk(s, d)
+			}
+		case *ast.AssignStmt:
+			for i, l := range x.Lhs {
+				if s, ok := l.(*ast.SelectorExpr); ok && s.Sel.Name == "values" {
+					kind := "other"
+					if i < len(x.Rhs) {
+						if c, ok := x.Rhs[i].(*ast.CallExpr); ok && exprString(c.Fun) == "make" {
+							kind = "make"
+						}
+					}
+					out = append(out, fmt.Sprintf("%d:%s", d, kind))
+				}
+			}
+		case *ast.IfStmt:
+			walk(x.Body, d+1)
+			if x.Else != nil {
+				walk(x.Else, d+1)
+			}
+		case *ast.ForStmt:
+			walk(x.Body, d+1)
+		case *ast.RangeStmt:
+			walk(x.Body, d+1)
+		case *ast.SwitchStmt:
+			walk(x.Body, d+1)
+		case *ast.CaseClause:
+			for _, s := range x.Body {
+				walk(s, d)
+			}
+		}
+	}
+	walk(b, depth)
+	return out
 }
 
 func exprString(e ast.Expr) string {
